@@ -33,7 +33,7 @@ def sig_of_trace(e, events, k):
 def run(ctx):
     q = ctx.quick
     vlib.model_check(ctx, "MC_YamlBytes.tla", "MC_YamlBytes.cfg", workers=2, timeout=900)
-    path, total = c14.generate(ctx, q, '{"V1"}')
+    path, total = c14.generate(ctx, q, '{"V1", "V2"}')
     b = vlib.harness_bin("c14")
     mp = ctx.path("mismatches.ndjson")
     rc, out, wall = vlib.sh([b, "replay", path, mp, "validate=1", "samples=%d" % (40 if q else 200)], timeout=3000)
